@@ -239,14 +239,14 @@ func (c *Ctx) RunCase(idx int, body func(), drain func() []string) {
 		defer func() {
 			if r := recover(); r != nil {
 				st := string(debug.Stack())
-				c.Violation("panic", PanicClass(r), "panic escaped the API or the harness: %v\n%s", r, trimStack(st))
+				c.Violation("panic", c.Check+"/escaped-panic/"+PanicClass(r), "panic escaped the API or the harness: %v\n%s", r, trimStack(st))
 			}
 		}()
 		body()
 	}()
 	if drain != nil {
 		for _, r := range drain() {
-			c.Violation("hook-monitor", "hook:"+firstWords(r, 2), "%s", r)
+			c.Violation("hook-monitor", c.Check+"/hook-monitor/"+firstWords(r, 2), "%s", r)
 		}
 	}
 	c.mu.Lock()
